@@ -58,6 +58,10 @@ def to_wire(x) -> str:
 def from_wire(tok: str) -> Fraction:
     m, e = tok.split(":")
     m, e = int(m), int(e)
+    if e < -6000:      # astronomically small (e.g. the model's exp of a wild step): exact value irrelevant, avoid
+        return Fraction(0)          # allocating a 2^|e|-digit denominator
+    if e > 6000:
+        e = 6000
     return Fraction(m) * (Fraction(2) ** e)
 
 
